@@ -140,7 +140,8 @@ func (im *Image) WellFormed(fileLen int) error {
 			return errors.New("overlapping sections")
 		}
 	}
-	if im.CertSize != 0 || im.CertVA != 0 {
+	// a size of zero means "no table", whatever the address field still holds
+	if im.CertSize != 0 {
 		if int(im.CertVA)+int(im.CertSize) != fileLen || im.CertVA%8 != 0 || im.CertSize%8 != 0 || im.CertSize == 0 {
 			return errors.New("certificate table is not the 8-aligned tail of the file")
 		}
